@@ -141,6 +141,9 @@ func (p *c10proto) Shutdown() error {
 func init() {
 	onet.GlobalProtocolRegister(c10protoName, func(n *onet.TreeNodeInstance) (onet.ProtocolInstance, error) {
 		p := &c10proto{TreeNodeInstance: n, stop: make(chan struct{})}
+		if atomic.LoadInt32(&c10closedAt) != 0 && !n.IsRoot() {
+			atomic.AddInt32(&c10lateCtor, 1)
+		}
 		if err := n.RegisterHandlers(p.handleGo, p.handleReply); err != nil {
 			return nil, err
 		}
@@ -425,6 +428,7 @@ func c10newRouter(tcp bool, lm *network.LocalManager, name string) (*network.Rou
 		id.Address = network.NewTCPAddress("127.0.0.1:" + port)
 		r := network.NewRouter(id, host)
 		r.Quiet, r.UnauthOk = true, true
+		c10wrapListener(r, host)
 		return r, port, nil
 	}
 	c10localPort++
@@ -642,6 +646,22 @@ func c10exec(c *h.Ctx, cs *h.Case) {
 				dbBusy = false
 			}
 			outcome = append(outcome, cs.Impl[len(cs.Impl)-1])
+			continue
+		case "srvlate":
+			if cl == nil || len(tk) != 1 || closedOnce || dbBusy {
+				bad()
+				continue
+			}
+			obs, didClose := c10srvlate(cs, cl, bound)
+			cs.Impl = append(cs.Impl, obs)
+			if didClose {
+				closedOnce = true
+				bound = 0
+			}
+			outcome = append(outcome, obs)
+			if obs == "hang" || obs == "harness-error" {
+				return
+			}
 			continue
 		case "srvstate":
 			if cl == nil || len(tk) != 1 {
@@ -936,6 +956,25 @@ func c10exec(c *h.Ctx, cs *h.Case) {
 				continue
 			}
 			cs.Impl = append(cs.Impl, c10backlog(ctl, cs, id, f, n))
+			outcome = append(outcome, cs.Impl[len(cs.Impl)-1])
+			continue
+		}
+		if tk[0] == "lnfault" {
+			ctl.mu.Lock()
+			fresh := len(ctl.threads) == 0 && len(ctl.peers) == 0
+			ctl.mu.Unlock()
+			k, e1 := 0, error(nil)
+			a, e2 := 0, error(nil)
+			if len(tk) == 3 {
+				k, e1 = strconv.Atoi(tk[1])
+				a, e2 = strconv.Atoi(tk[2])
+			}
+			if len(tk) != 3 || e1 != nil || e2 != nil || k < 1 || k > 8 || a < 0 || a > 4 || !fresh || !ctl.tcp ||
+				strings.HasPrefix(tk[1], "+") || strings.HasPrefix(tk[2], "+") {
+				bad()
+				continue
+			}
+			cs.Impl = append(cs.Impl, c10lnfault(ctl, cs, k, a))
 			outcome = append(outcome, cs.Impl[len(cs.Impl)-1])
 			continue
 		}
@@ -1590,7 +1629,7 @@ func c10gen(c *h.Ctx, yield func(*h.Case)) {
 			var with []string
 			for i, o := range ops {
 				with = append(with, o)
-				if i == 0 || strings.HasPrefix(o, "srvclose") {
+				if i == 0 || strings.HasPrefix(o, "srvclose") || o == "srvlate" {
 					with = append(with, "srvstate")
 					c.Count("op=srvstate")
 				}
@@ -1781,6 +1820,22 @@ func c10gen(c *h.Ctx, yield func(*h.Case)) {
 		}
 		emit("server:overlapping-closes", ops)
 	}
+	// a delivery in flight that the router's Stop does not wait for: the hand-over routine of a parked
+	// message runs after Close has returned (witness of the seeded change C10r6-B)
+	for _, tr := range transports {
+		emit("server:corpus-parked-message-across-close", []string{"srv " + tr, "srvlate", "srvstart"})
+	}
+	for i := 0; i < c.Pick(6, 60); i++ {
+		ops := []string{"srv " + transports[r.Intn(2)]}
+		for k := r.Intn(3); k > 0; k-- {
+			ops = append(ops, "srvstart")
+		}
+		ops = append(ops, "srvlate", "srvstart")
+		if r.Intn(2) == 0 {
+			ops = append(ops, "srvclose")
+		}
+		emit("server:parked-message-across-close", ops)
+	}
 	// a delivery in flight at a service while the server closes; the handler then uses the database
 	for _, tr := range transports {
 		emit("server:corpus-database-use-after-close", []string{"srv " + tr, "srvdb", "srvclose", "srvdbgo"})
@@ -1805,6 +1860,11 @@ func c10gen(c *h.Ctx, yield func(*h.Case)) {
 		}
 		ops = append(ops, "srvdbgo", "srvstart")
 		emit("server:database-use-after-close", ops)
+	}
+	// listener faults before close: Accept errors of the operating system, then connections, then Stop
+	emit("corpus-accept-error-before-stop", []string{"init tcp", "lnfault 1 1"})
+	for i := 0; i < c.Pick(10, 80); i++ {
+		emit("listener-faults:tcp", []string{"init tcp", fmt.Sprintf("lnfault %d %d", 1+r.Intn(4), r.Intn(4))})
 	}
 	// several connections with one peer, some of which end before the router stops
 	for _, tr := range transports {
